@@ -1,4 +1,173 @@
-import DDV.Gen.Lemmas.Tree
+/-
+  C06 — Generated field-set API implements exactly the declared layout and types.
+-/
+import DDV.Props.C01
+import DDV.Props.C02
+import DDV.Props.C03Gen
+import DDV.Gen.Emit
+
 namespace DDV.Props.C06
-theorem placeholder : True := trivial
+open DDV.Gen DDV.Bits
+set_option linter.unusedVariables false
+set_option linter.unusedSimpArgs false
+
+/-- **Carrier**: for every width the language allows (1..128) the carrier is the smallest of
+    8, 16, 32, 64, 128 bits that fits the width. -/
+theorem carrier_is_smallest_fit : ∀ w, w ≤ 128 →
+    (carrierBitsOf w ∈ [8, 16, 32, 64, 128]) ∧ w ≤ carrierBitsOf w ∧
+    (∀ c ∈ [8, 16, 32, 64, 128], w ≤ c → carrierBitsOf w ≤ c) := by
+  decide +kernel
+
+/-- signed iff the base type is `int`; `bool` fields use a `u8` carrier and the `bool` type. -/
+theorem carrier_signedness (enums : List Enum) (f : Field) (lf : LField) (h : transformField enums f = .ok lf) :
+    (lf.signed = true ↔ f.base = .int) ∧ (f.base = .bool → lf.conv = .bool ∧ lf.carrierBits = 8) ∧
+    (f.base ≠ .bool → lf.carrierBits = carrierBitsOf f.width) := by
+  unfold transformField at h
+  simp only [bind, Except.bind, pure, Except.pure, throw, throwThe, MonadExceptOf.throw] at h
+  cases hb : f.base <;> cases hc : f.conv <;> simp only [hb, hc] at h
+  · by_cases hw : f.width = 1
+    · simp only [hw, if_true, Except.ok.injEq] at h; rw [← h]; simp
+    · simp only [hw, if_false] at h; cases h
+  · cases h
+  · simp only [Except.ok.injEq] at h; rw [← h]; simp
+  · split at h
+    · cases h
+    · simp only [Except.ok.injEq] at h; rw [← h]; simp
+  · simp only [Except.ok.injEq] at h; rw [← h]; simp
+  · split at h
+    · cases h
+    · simp only [Except.ok.injEq] at h; rw [← h]; simp
+
+/-- **Range forms**: `a..b` is `[a,b)`; the single-bit address form (only for `bool`) is `[a,a+1)`
+    after the bool normalisation; both front ends lower the same way. -/
+theorem range_forms (g : GlobalConfig) (f : AField) (mf : Field) (syn : Syntax)
+    (h : (match syn with | .dsl => dslField g f | _ => manField g f) = .ok mf) :
+    mf.start = f.start ∧ mf.stop = (f.stop.getD f.start) := by
+  have hd : dslField g f = .ok mf → mf.start = f.start ∧ mf.stop = (f.stop.getD f.start) := by
+    intro h
+    unfold dslField at h
+    simp only [bind, Except.bind, pure, Except.pure, throw, throwThe, MonadExceptOf.throw, checkU32] at h
+    by_cases h1 : fitsU32 f.start = true
+    · simp only [h1, if_true] at h
+      cases hs : f.stop with
+      | none =>
+        simp only [hs] at h
+        by_cases hb : (f.base == BaseType.bool) = true
+        · simp only [hb, if_true, Except.ok.injEq] at h; rw [← h]; simp
+        · simp [hb] at h
+      | some e =>
+        simp only [hs] at h
+        by_cases h2 : fitsU32 e = true
+        · simp only [h2, if_true, Except.ok.injEq] at h; rw [← h]; simp
+        · simp [h2] at h
+    · simp [h1] at h
+  have hm : manField g f = .ok mf → mf.start = f.start ∧ mf.stop = (f.stop.getD f.start) := by
+    intro h
+    unfold manField at h
+    simp only [bind, Except.bind, pure, Except.pure, throw, throwThe, MonadExceptOf.throw, checkU32] at h
+    by_cases h1 : fitsU32 f.start = true
+    · simp only [h1, if_true] at h
+      cases hs : f.stop with
+      | none =>
+        simp only [hs, Except.ok.injEq] at h; rw [← h]; simp
+      | some e =>
+        simp only [hs] at h
+        by_cases h2 : fitsU32 e = true
+        · simp only [h2, if_true, Except.ok.injEq] at h; rw [← h]; simp
+        · simp [h2] at h
+    · simp [h1] at h
+  cases syn
+  · exact hd h
+  · exact hm h
+  · exact hm h
+  · exact hm h
+
+/-- **Effective byte order**: the object's own, else the global default, else LE for sets of at
+    most 8 bits (otherwise the definition is rejected). -/
+def effectiveByteOrder (own global : Option ByteOrder) : ByteOrder := own.getD (global.getD .le)
+
+theorem effective_byte_order (g : Option ByteOrder) (r r' : Register)
+    (h : byteOrderObj g (.register r) = .ok (.register r')) :
+    r'.byteOrder = some (effectiveByteOrder r.byteOrder g) ∧
+    (r.byteOrder = none → g = none → r.sizeBits ≤ 8) := by
+  have hspec := (byteOrderObj_spec g (.register r)).2 _ h
+  have hok := (byteOrderObj_spec g (.register r)).1.1 ⟨_, h⟩
+  unfold fillByteOrder at hspec
+  unfold ByteOrderOk at hok
+  unfold effectiveByteOrder
+  cases hb : r.byteOrder with
+  | none =>
+    simp only [hb, Option.isNone_none, if_true, Object.register.injEq] at hspec
+    rw [hspec]
+    refine ⟨by simp, ?_⟩
+    intro _ hg
+    subst hg
+    simp only [hb, Option.isSome_none, Bool.false_eq_true, or_self, imp_false, Nat.not_lt] at hok
+    exact hok
+  | some b =>
+    simp only [hb, Option.isNone_some, Bool.false_eq_true, if_false, Object.register.injEq] at hspec
+    rw [hspec]
+    exact ⟨by simp [hb], fun h => by cases h⟩
+
+/-- **The getter reads exactly the declared range under the effective orders.** For a register
+    that passed range validation, the emitted getter of a field — `load_<bit order>::<carrier,
+    byte order>(&self.bits, start, end)` — returns, for every content of the ⌈size/8⌉-byte array,
+    the value whose bit `j` is the documented set-bit of the declared range (C01), and the setter
+    writes exactly those set-bits and leaves every other bit of the field set alone (C02). -/
+theorem getter_implements_declared_layout (ptr : Nat) (enums : List Enum) (r : Register)
+    (hr : isOk (bitRangesObj (.register r))) (f : Field) (hf : f ∈ r.fields) (lf : LField)
+    (hl : transformField enums f = .ok lf) (bo : ByteOrder) (data : List Byte)
+    (hd : data.length = (r.sizeBits + 7) / 8) :
+    ∃ v, load ptr ⟨lf.carrierBits, lf.signed⟩ r.bitOrder bo data f.start f.stop = some v ∧
+      ∀ j, v.getLsbD j = (decide (j < f.stop - f.start) &&
+        physBit bo r.bitOrder data (srcOfValueBit r.bitOrder f.start f.stop j)) := by
+  have hs := DDV.Props.C03Gen.accepted_accessors_safe enums r hr f hf lf hl
+  obtain ⟨h1, h2, h3⟩ := DDV.Props.C03Gen.transformField_bounds enums f lf hl
+  rw [h1, h2] at hs
+  exact DDV.Props.C01.load_layout ptr ⟨lf.carrierBits, lf.signed⟩ r.bitOrder bo data f.start f.stop
+    ⟨hs.le, by rw [hd]; exact hs.len, hs.width⟩
+
+theorem setter_implements_declared_layout (ptr : Nat) (enums : List Enum) (r : Register)
+    (hr : isOk (bitRangesObj (.register r))) (f : Field) (hf : f ∈ r.fields) (lf : LField)
+    (hl : transformField enums f = .ok lf) (bo : ByteOrder) (data : List Byte)
+    (hd : data.length = (r.sizeBits + 7) / 8) (v : BitVec lf.carrierBits) :
+    ∃ d, store ptr ⟨lf.carrierBits, lf.signed⟩ r.bitOrder bo v f.start f.stop data = some d ∧
+      d.length = data.length ∧
+      ∀ k, k < 8 * data.length →
+        physBit bo r.bitOrder d k =
+          if f.start ≤ k ∧ k < f.stop then v.getLsbD (valueBitOfSrc r.bitOrder f.start f.stop k)
+          else physBit bo r.bitOrder data k := by
+  have hs := DDV.Props.C03Gen.accepted_accessors_safe enums r hr f hf lf hl
+  obtain ⟨h1, h2, h3⟩ := DDV.Props.C03Gen.transformField_bounds enums f lf hl
+  rw [h1, h2] at hs
+  exact DDV.Props.C01.store_layout ptr ⟨lf.carrierBits, lf.signed⟩ r.bitOrder bo v data f.start f.stop
+    ⟨hs.le, by rw [hd]; exact hs.len, hs.width⟩
+
+/- Conversion type path (`super::` unless the path is absolute or starts at `crate`): the string
+   function `superPrefix` of `DDV.Gen.Emit` is compared with the emitted signature types of every
+   generated getter / setter by the correspondence run; string primitives do not reduce in the
+   kernel, so there is no theorem about it here. -/
+
+/-- **Names**: object, enum and variant names are the PascalCase, field names the snake_case
+    normalisation with the configured boundaries (the `convert_case` oracle `n`). -/
+theorem names_are_normalised (n : Names) (f : Field) :
+    (normField n f).name = n.snake f.name ∧
+    (∀ e t, f.conv = some (.enum e t) →
+      ∃ e', (normField n f).conv = some (.enum e' t) ∧ e'.name = n.pascal e.name ∧
+        e'.variants.map (·.name) = e.variants.map (fun v => n.pascal v.name)) := by
+  unfold normField
+  refine ⟨rfl, ?_⟩
+  intro e t h
+  simp only [h]
+  exact ⟨_, rfl, rfl, by simp⟩
+
+/-- The full statement for accessor *method* names would be `snake B name` with the configured
+    boundaries `B`; the current tree derives them with convert_case's default boundaries (finding
+    F4): the model carries a separate oracle function `method` for that conversion. -/
+theorem accessor_name_uses_method_oracle (n : Names) (cfg : GlobalConfig) (all : List Object) (r : Register)
+    (t : Integer) (hc : cfg.registerAddressType = some t) (fuel : Nat) :
+    ∃ m, getMethod n cfg all "new" (fuel + 1) (.register r) = .ok (m, []) ∧ m.name = n.method r.name := by
+  unfold getMethod
+  simp [hc, bind, Except.bind, pure, Except.pure]
+
 end DDV.Props.C06
